@@ -22,6 +22,7 @@ import TdVerif.Lemmas.C08Apply
 import TdVerif.Lemmas.C08Reduce
 import TdVerif.Lemmas.C08Resize
 import TdVerif.Lemmas.C08Shape2
+import TdVerif.Lemmas.C08Out
 
 namespace TdVerif.Props.C08
 open TdVerif.C08
@@ -511,6 +512,31 @@ theorem stack_refines_dense [Inhabited α] (Ls : List (Lazy α)) (b : Shape) (ke
       (∀ L ∈ Ls, L.sd = L0.sd) ∧
       absL L' ≈ stackTD (Ls.map absL) d :=
   stack_refines Ls b keys feat n hn hU hlen dim L' h
+
+/-! ## cat / stack with `out=<lazy stack>` -/
+
+/-- **`torch.cat([L1, …, Lk], dim, out=O)` along the common stack dim of the operands and of `O`**
+(`_lazy_cat`, the branch repaired by "torch.cat of lazy stacks with out=<lazy stack> did not write
+into out"): the members of `O`, in order, receive the members of the operands and `O` materialises
+to the dense cat.  (The other configurations of `out=` — `O` stacked along another dim than `dim`
+or than the operands — are modelled by `lazyCatOut` and tied by the `out_lazy` correspondence.) -/
+theorem cat_out_write_through [Inhabited α] (L0 : Lazy α) (rest : List (Lazy α)) (keys : List String)
+    (feat : String → Shape)
+    (hU : ∀ L ∈ L0 :: rest, Uniform L L0.mb keys feat ∧ L.members ≠ [])
+    (out : Lazy α) (dim : Int) (out' : Lazy α)
+    (hd : (if dim < 0 then (L0.batch.length : Int) + dim else dim) = (L0.sd : Int))
+    (hout : out.sd = L0.sd)
+    (h : lazyCatOut (L0 :: rest) dim out = some out') :
+    out'.sd = out.sd ∧ out'.members = (L0 :: rest).flatMap Lazy.members ∧
+      absL out' ≈ TD.catList ((L0 :: rest).map absL) L0.sd :=
+  cat_out_along_stack_dim L0 rest keys feat hU out dim out' hd hout h
+
+/-- **`torch.stack(items, dim, out=O)` with `dim = O.stack_dim`** (`_stack_onto_`): member `i` of
+`O` is updated in place with item `i`; `O` is then the dense stack of the items. -/
+theorem stack_out_write_through [Inhabited α] (out : Lazy α) (items : List (TD α)) (out' : Lazy α)
+    (h : lazyStackOnto out items out.sd = some out') :
+    out'.sd = out.sd ∧ out'.members.length = out.members.length ∧ absL out' = stackTD items out.sd :=
+  stack_out_same_dim out items out' h
 
 /-! ## update_, insert / append -/
 
